@@ -10,6 +10,7 @@ const acorn = require('internal/deps/acorn/acorn/dist/acorn');
 
 class InstrumentError extends Error {}
 
+const STRING_METHODS = new Set(['charCodeAt', 'charAt', 'substring', 'substr', 'indexOf', 'lastIndexOf', 'codePointAt']);
 const SIMPLE_TEST = n => n.type === 'Literal' || n.type === 'Identifier' ||
   (n.type === 'UnaryExpression' && n.operator === '-' && n.argument.type === 'Literal') ||
   n.type === 'ArrowFunctionExpression' || n.type === 'FunctionExpression' ||
@@ -89,19 +90,19 @@ function instrument(src, opts) {
       case 'ReturnStatement': return 'return' + (n.argument ? ' ' + e(n.argument) : '') + ';';
       case 'IfStatement':
         if (!opts.noMerge && convertibleIf(n)) return mergedIf(n, null);
-        return 'if ($$.c(' + e(n.test) + ')) ' + s(n.consequent) + (n.alternate ? ' else ' + s(n.alternate) : '');
+        return 'if ($$.c(' + test(n.test) + ')) ' + s(n.consequent) + (n.alternate ? ' else ' + s(n.alternate) : '');
       case 'ForStatement': {
         const init = n.init ? (n.init.type === 'VariableDeclaration' ? varDecl(n.init) : e(n.init)) : '';
         const upd = n.update ? (n.update.type === 'UpdateExpression' ? updateStmt(n.update) : e(n.update)) : '';
-        return 'for (' + init + '; ' + (n.test ? '$$.c(' + e(n.test) + ')' : '') + '; ' + upd + ') ' + s(n.body);
+        return 'for (' + init + '; ' + (n.test ? '$$.c(' + test(n.test) + ')' : '') + '; ' + upd + ') ' + s(n.body);
       }
       case 'ForInStatement':
       case 'ForOfStatement': {
         const l = n.left.type === 'VariableDeclaration' ? varDecl(n.left) : pat(n.left);
         return 'for (' + l + (n.type === 'ForInStatement' ? ' in ' : ' of ') + e(n.right) + ') ' + s(n.body);
       }
-      case 'WhileStatement': return 'while ($$.c(' + e(n.test) + ')) ' + s(n.body);
-      case 'DoWhileStatement': return 'do ' + s(n.body) + ' while ($$.c(' + e(n.test) + '));';
+      case 'WhileStatement': return 'while ($$.c(' + test(n.test) + ')) ' + s(n.body);
+      case 'DoWhileStatement': return 'do ' + s(n.body) + ' while ($$.c(' + test(n.test) + '));';
       case 'SwitchStatement': return switchStmt(n);
       case 'BreakStatement': return 'break' + (n.label ? ' ' + n.label.name : '') + ';';
       case 'ContinueStatement': return 'continue' + (n.label ? ' ' + n.label.name : '') + ';';
@@ -137,6 +138,8 @@ function instrument(src, opts) {
     if (n.type === 'UnaryExpression' && n.operator === '!') return pureTest(n.argument);
     return pureVal(n);
   }
+  // a pure compound test is evaluated without short-circuit forks: one decision instead of one per operand
+  function test(n) { return (!opts.noMerge && n.type === 'LogicalExpression' && pureTest(n)) ? T(n) : e(n); }
   function stmtsOf(n) { return n.type === 'BlockStatement' ? n.body : [n]; }
   function convertibleStmt(st) {
     if (st.type === 'EmptyStatement') return true;
@@ -300,6 +303,8 @@ function instrument(src, opts) {
         const c = n.callee;
         if (c.type === 'MemberExpression' && c.computed)
           return '$$.mc(' + e(c.object) + ', ' + e(c.property) + ', [' + n.arguments.map(e).join(', ') + '])';
+        if (c.type === 'MemberExpression' && STRING_METHODS.has(c.property.name) && c.object.type !== 'Super')
+          return '$$.sm(' + e(c.object) + ', ' + q(c.property.name) + ', [' + n.arguments.map(e).join(', ') + '])';
         if (c.type === 'MemberExpression') return e(c.object) + '.' + c.property.name + args;
         if (c.type === 'Identifier') return c.name + args;
         return '(' + e(c) + ')' + args;
